@@ -47,9 +47,15 @@ def alpn_from_tokens(seq):
     return out
 
 
-def batch_eval(ctx, hellos3, hellos4, name='Batch'):
-    """Evaluate JA3String / JA4a / JA4bPre / JA4cPre with TLC on abstract hellos parsed from real ClientHellos."""
-    d = ctx.specdir()
+def batch_eval(ctx, hellos3, hellos4, name='Batch', chunk=8000):
+    """Evaluate JA3String / JA4a / JA4bPre / JA4cPre with TLC on abstract hellos parsed from real ClientHellos.
+    Large batches are cut into chunks that are evaluated by several TLC processes side by side."""
+    if len(hellos3) + len(hellos4) > chunk:
+        return _batch_eval_chunked(ctx, hellos3, hellos4, name, chunk)
+    return _batch_eval_one(ctx, hellos3, hellos4, name)
+
+
+def _batch_module(name, hellos3, hellos4):
     lines = ['---- MODULE %s ----' % name, 'EXTENDS JA3Ops, JA4Ops']
     h3 = []
     for a in hellos3:
@@ -65,20 +71,68 @@ def batch_eval(ctx, hellos3, hellos4, name='Batch'):
     lines.append('ASSUME \\A i \\in 1..Len(H3) : PrintT(<<"JA3", i, JA3String(H3[i])>>)')
     lines.append('ASSUME \\A i \\in 1..Len(H4) : PrintT(<<"JA4", i, JA4a(H4[i]), JA4bPre(H4[i]), JA4cPre(H4[i])>>)')
     lines.append('====')
-    open(os.path.join(d, name + '.tla'), 'w').write('\n'.join(lines) + '\n')
+    return '\n'.join(lines) + '\n'
+
+
+def _parse_batch(out, n3, n4):
+    out3, out4 = {}, {}
+    for m in re.finditer(r'<<\s*"JA3",.*?>>', out, re.S):
+        v = tlaval.parse_value(m.group(0))
+        out3[v[1] - 1] = v[2]
+    for m in re.finditer(r'<<\s*"JA4",.*?>>', out, re.S):
+        v = tlaval.parse_value(m.group(0))
+        out4[v[1] - 1] = (v[2], v[3], v[4])
+    if len(out3) != n3 or len(out4) != n4:
+        raise vf.Inconclusive('batch evaluation returned %d/%d of %d/%d results' % (len(out3), len(out4), n3, n4))
+    return out3, out4
+
+
+def _batch_eval_one(ctx, hellos3, hellos4, name):
+    d = ctx.specdir()
+    open(os.path.join(d, name + '.tla'), 'w').write(_batch_module(name, hellos3, hellos4))
     open(os.path.join(d, name + '.cfg'), 'w').write('\n')
     r = ctx.tlc(name, name + '.cfg', workers=1, timeout=300, expect_ok=False, label='batch evaluation of captured hellos')
     if r['errors']:
         raise vf.Inconclusive('batch evaluation failed:\n' + vf.tail(r['out'], 30))
+    return _parse_batch(r['out'], len(hellos3), len(hellos4))
+
+
+def _batch_eval_chunked(ctx, hellos3, hellos4, name, chunk):
+    import subprocess
+    import time
+    from concurrent.futures import ThreadPoolExecutor
+    d = ctx.specdir()
+    jobs = []
+    for kind, lst in (('3', hellos3), ('4', hellos4)):
+        for off in range(0, len(lst), chunk):
+            jobs.append((kind, off, lst[off:off + chunk]))
+    t0 = time.time()
+
+    def one(j):
+        k, (kind, off, part) = j
+        mod = '%s_%d' % (name, k)
+        open(os.path.join(d, mod + '.tla'), 'w').write(_batch_module(mod, part if kind == '3' else [], part if kind == '4' else []))
+        open(os.path.join(d, mod + '.cfg'), 'w').write('\n')
+        env = dict(os.environ, JAVA_TOOL_OPTIONS='-Xss64m -Xmx4g')
+        try:
+            p = subprocess.run(['tlc', '-workers', '1', '-metadir', os.path.join(ctx.scratch, 'meta-' + mod), '-config', mod + '.cfg', mod + '.tla'], cwd=d, env=env,
+                               stdout=subprocess.PIPE, stderr=subprocess.STDOUT, text=True, timeout=900)
+        except subprocess.TimeoutExpired:
+            raise vf.Inconclusive('batch evaluation chunk %d timed out' % k)
+        if re.search(r'^Error: ', p.stdout, re.M):
+            raise vf.Inconclusive('batch evaluation chunk %d failed:\n%s' % (k, vf.tail(p.stdout, 20)))
+        o3, o4 = _parse_batch(p.stdout, len(part) if kind == '3' else 0, len(part) if kind == '4' else 0)
+        os.remove(os.path.join(d, mod + '.tla'))
+        return kind, off, o3, o4
     out3, out4 = {}, {}
-    for m in re.finditer(r'<<\s*"JA3",.*?>>', r['out'], re.S):
-        v = tlaval.parse_value(m.group(0))
-        out3[v[1] - 1] = v[2]
-    for m in re.finditer(r'<<\s*"JA4",.*?>>', r['out'], re.S):
-        v = tlaval.parse_value(m.group(0))
-        out4[v[1] - 1] = (v[2], v[3], v[4])
-    if len(out3) != len(hellos3) or len(out4) != len(hellos4):
-        raise vf.Inconclusive('batch evaluation returned %d/%d of %d/%d results' % (len(out3), len(out4), len(hellos3), len(hellos4)))
+    with ThreadPoolExecutor(max_workers=6) as ex:
+        for kind, off, o3, o4 in ex.map(one, list(enumerate(jobs))):
+            for i, v in o3.items():
+                out3[off + i] = v
+            for i, v in o4.items():
+                out4[off + i] = v
+    ctx.tlc_runs.append({'label': 'batch evaluation of %d + %d hellos in %d chunks' % (len(hellos3), len(hellos4), len(jobs)), 'module': name, 'cfg': '-',
+                         'wall_s': round(time.time() - t0, 2)})
     return out3, out4
 
 
